@@ -192,3 +192,25 @@ Theorem build_imports_spec : forall ds m, build ds = inl m ->
   imports_of m = nodup_first (import_names ds).
 Proof. exact build_imports_spec_proof. Qed.
 Print Assumptions build_imports_spec.
+
+(* Forward declarations and exports: every completed link stores in every export and forward item
+   of every module it binds the module's OWN entry for that name (never anything from the table of
+   globals) ... *)
+Theorem export_forward_bind_locally : forall (p : list op) (r : resolver) (o : op),
+  o = Link r \/ o = LinkNoIface r ->
+  forall bs res, snd (step true (fst (run p)) o) = OLinked bs res
+                 \/ snd (step true (fst (run p)) o) = OBound bs res ->
+  dead (fst (run p)) = false ->
+  Forall2 (fun m ib => fst ib = lid m /\ local_bindings (snd ib) = local_spec (lid m) (lmd m))
+          (pending (snd (run p))) bs.
+Proof. exact export_forward_local_proof. Qed.
+Print Assumptions export_forward_bind_locally.
+
+(* ... which for a built module is its definition of the name, whatever the declaration order
+   (forward before or after the definition), and NULL when the module only declares the name. *)
+Theorem local_ref_spec : forall ds m id, build ds = inl m ->
+  (forall i t, nth_error (mitems m) i = Some t -> is_def (ik t) = true ->
+               local_ref id m (iname t) = Some (DMod id i (ik t))) /\
+  (forall n, (forall k, In (k, n) ds -> is_def k = false) -> local_ref id m n = None).
+Proof. exact local_ref_spec_proof. Qed.
+Print Assumptions local_ref_spec.
